@@ -798,6 +798,22 @@ func (c *ctl) checkStreamsAPI(vs sp.VerifState, tags []string) (f *finding) {
 	for _, t := range tags {
 		got := c.pool.Streams(t)
 		want := vs.ByTag[t]
+		// The snapshot and the API call are two critical sections of pool.mu. In free-running runs a queued dial
+		// task or a failing writer may add / remove a stream in between: judge only against a snapshot that was
+		// the same before and after the call (stable), otherwise there is nothing to compare.
+		stable := false
+		for try := 0; try < 50; try++ {
+			before := c.snapshot()
+			got = c.pool.Streams(t)
+			after := c.snapshot()
+			if fmt.Sprint(before.ByTag[t]) == fmt.Sprint(after.ByTag[t]) {
+				want, stable = after.ByTag[t], true
+				break
+			}
+		}
+		if !stable {
+			continue
+		}
 		if len(got) != len(want) {
 			return violation("streams-api-mismatch", "Streams(%s) returned %d streams, index lists %v", t, len(got), want)
 		}
